@@ -176,7 +176,7 @@ let run (st : stream) (b : Buffer.t) : unit =
                      pr "%s %d ncand=%d %s\n" (if cs = [] then "TOS" else "TOSBAD") i (List.length l) (codes cs);
                      if cs <> [] then bad := true;
                      cur := List.find_opt (fun m -> tr_eqb m rect) l
-                   | _ -> pr "TOSBAD %d MODELFAIL\n" i; bad := true; cur := None)
+                   | _ -> pr "TOS %d MODELFAIL\n" i; bad := true; cur := None)
                 | None -> ()) steps;
               (match !cur with
                | Some t ->
@@ -185,7 +185,7 @@ let run (st : stream) (b : Buffer.t) : unit =
                     let cs = stop_codes l t in
                     pr "%s stop steps=%d ncand=%d %s\n" (if cs = [] then "TOS" else "TOSBAD") (List.length steps) (List.length l) (codes cs);
                     Ok (Some (t, []))
-                  | _ -> pr "TOSBAD stop MODELFAIL\n"; Panic)
+                  | _ -> pr "TOS stop MODELFAIL\n"; Panic)
                | None -> Panic)
             end
           | "succ" ->
